@@ -87,6 +87,18 @@ PROPS["C12"] = {
     "level_note": LEVEL_NOTE_GBN,
 }
 
+PROPS["C14"] = {
+    "pkgs": ["gbn"],
+    "level": "exploration",
+    "quick_budget": 60, "thorough_budget": 1500,
+    "rule": "sizes-exhaustive: for each maxChunkSize M in {off,1..5} and window N in {1,2,20}, every payload length 0..3M+1 (0..16 with chunking off) as a single message and every ordered pair of lengths, over one real connection (complete enumeration). sizes-random: sequences of 1..12 messages with lengths 0, 1, exact multiples and multiples +-1 of M, up to 256 KiB, M up to 64 KiB or off, with and without transport faults. deadlines: three messages, the middle one of 2..7 chunks, a receive or send deadline at a tape-chosen millisecond inside it, the timed-out call retried. Oracle: the Recv results equal, element by element, the messages whose Send returned nil." + SIG_RULE,
+    "assumptions": ["a fault-free simulated transport delivers within 2 virtual minutes, so a missing Recv result is a lost message"],
+    "components": GBN_COMPONENTS,
+    "expected_probes": ["c14.messages", "c14.deadline-hit-recv"],
+    "level_text": EXPL_TEXT + " The small-size sub-batch is a complete enumeration.",
+    "level_note": LEVEL_NOTE_GBN,
+}
+
 # Properties that are pure functions of their input: no schedule, clock, fault
 # or interleaving enters them, so deterministic simulation has nothing to decide.
 NOT_APPLICABLE = {
